@@ -22,6 +22,7 @@ POOL = [
     ('Box<u32>', ('prim', 'u32'), True, False),
     ('PhantomData<u8>', ('eps',), True, False),
 ]
+NEEDS_DROP = {'Vec<u8>', 'String', 'Box<u32>'}
 COMPACT_OF = {'u8': ('compact', 'u8'), 'u16': ('compact', 'u16'), 'u32': ('compact', 'u32'), 'u64': ('compact', 'u64'), 'u128': ('compact', 'u128')}
 
 
@@ -131,6 +132,16 @@ class Gen:
                   'fields': [self.fld(0, 7, 'none', False), {'name': '1', 'ty': 'PhantomData<u8>', 'shape': ('eps',), 'attr': 'skip', 'mel': True}]})
         D.append({'kind': 'struct', 'name': 'S%d' % len(D), 'named': False, 'generics': [], 'transparent': True,
                   'fields': [{'name': '0', 'ty': 'PhantomData<u8>', 'shape': ('eps',), 'attr': 'none', 'mel': True}, self.fld(1, 8, 'none', False)]})
+        # a one-variant unit enum is zero-sized but its decoder reads (and can reject) a byte: the companion of a transparent struct
+        zname = 'E%d' % len(D)
+        zv = [{'name': 'Only', 'fields': [], 'skip': False, 'src': 'implicit', 'kind': 'unit'}]
+        self.assign_indices(zv)
+        D.append({'kind': 'enum', 'name': zname, 'variants': zv, 'generics': []})
+        zf = {'name': '1', 'ty': zname, 'shape': ('alt', [('Only', ('byte', 0))]), 'attr': 'none', 'mel': True}
+        D.append({'kind': 'struct', 'name': 'S%d' % len(D), 'named': False, 'generics': [], 'transparent': True,
+                  'fields': [self.fld(0, 7, 'none', False), zf]})
+        D.append({'kind': 'struct', 'name': 'S%d' % len(D), 'named': False, 'generics': [], 'transparent': True,
+                  'fields': [self.fld(0, 4, 'none', False), dict(zf)]})
 
     def enums(self):
         D = self.defs
